@@ -4,26 +4,26 @@ import json, subprocess
 BUILT = "C01 C02 C03 C04 C05 C06 C07 C08 C09 C10 C11 C12 C13 C14 C15 C16 C17 C18 C19 C20".split()
 NA = {}  # property -> reason (genuinely not applicable)
 TECH = {
- "C01": "state-graph dominance (K1) + CFG path rules on gate routing/order (K2,K3) + exact caller sets (K4) over go/types+go/cfg + context-origin def-use of the run context (K11)",
- "C02": "def-use of limiter/pool size (K11) + acquire/release pairing on CFG paths (K3) + comparison shape (K5) + who-may-write lint on the shared engine value (K4) + context plumbing to the plugin (K11)",
- "C03": "comparison-shape lint on failures vs tolerance (K5) + CFG path rules on counting, launch guards and outcome routing (K2,K3) + assume-and-refute per loop iteration on repair-then-classify (K2)",
- "C04": "CFG must-pass/pairing (K3), state-graph spawn/join (K1), switch exhaustiveness and table agreement (K7), path routing (K2) + assume-and-refute scan completeness (K7), end-stamp pairing on every terminal assignment (K3)",
+ "C01": "state-graph dominance (K1) + CFG path rules on gate routing/order (K2,K3) + exact caller sets (K4) over go/types+go/cfg + context-origin def-use of the run context (K11) + join pairing and Wait-result propagation in the check-group runners (K3,K2)",
+ "C02": "def-use of limiter/pool size (K11) + acquire/release pairing on CFG paths (K3) + comparison shape (K5) + who-may-write lint on the shared engine value (K4) + context plumbing to the plugin (K11) + lock-scope check-then-act pairing of Start (K3)",
+ "C03": "comparison-shape lint on failures vs tolerance (K5) + CFG path rules on counting, launch guards and outcome routing (K2,K3) + assume-and-refute per loop iteration on repair-then-classify (K2) + loop-exhaustion rule on the stored-failure count (K2)",
+ "C04": "CFG must-pass/pairing (K3), state-graph spawn/join (K1), switch exhaustiveness and table agreement (K7), path routing (K2) + assume-and-refute scan completeness (K7), end-stamp pairing on every terminal assignment (K3) + no-item-skipped rule on the final writer's walk loop (K7)",
  "C05": "comparison shape + dominance of the retry guard (K5,K3), defer-order/pairing on CFG paths (K3), outcome mapping on paths (K2), runner state graph (K1) + freshness def-use of the result channel (K11), recovery verdict by assume-and-refute (K2)",
- "C06": "gate routing on CFG paths (K2), state graph (K1), call-graph unreachability of plugin invocation (K4) + assume-and-refute on gate evaluation and on recovery of failed gates (K2)",
- "C07": "send/close pairing on CFG paths (K3), drain/poll routing (K2), state-graph predecessor sets and spawn/join (K1) + blocking/non-blocking send classification (K3), sticky failure verdict on paths (K2)",
+ "C06": "gate routing on CFG paths (K2), state graph (K1), call-graph unreachability of plugin invocation (K4) + assume-and-refute on gate evaluation and on recovery of failed gates (K2) + Wait-result propagation of the group verdict (K2)",
+ "C07": "send/close pairing on CFG paths (K3), drain/poll routing (K2), state-graph predecessor sets and spawn/join (K1) + blocking/non-blocking send classification (K3), sticky failure verdict on paths (K2) + emptied-Attempts-before-run rule on the inlined paths of runChecksOnce (K3)",
  "C08": "persist-before-act ordering on CFG paths (K3), storage error discipline at every Update* site (K6), state graph (K1), who-may-call (K4) + mark-Running-before-act and write-after-mark on CFG paths (K3)",
- "C10": "wiring by def-use and call graph (K4,K11), state graphs of the recovery and plan machines (K1), join pairing (K3) — structural necessary conditions only + write-order lint of whole-plan writers (K3), stream-loop call-graph reach (K4), assume-and-refute on failed groups (K2)",
+ "C10": "wiring by def-use and call graph (K4,K11), state graphs of the recovery and plan machines (K1), join pairing (K3) — structural necessary conditions only + write-order lint of whole-plan writers (K3), stream-loop call-graph reach (K4), assume-and-refute on failed groups (K2) + recovered-gate and durable-verdict assume-and-refute rules (K2)",
  "C11": "literal/def-use checks of the start-up filter (K11), comparison shape of the staleness test (K5), path rules on agedOut persistence (K2,K6), who-may-call (K4) + write-order lint of the stale-close writer (K3)",
  "C12": "lock-scope pairing on CFG paths (K3), guard dominance in validators (K5,K2), enumeration of non-returning call sites (K4), nil-guard and positive-argument dominance (K10,K5) + nil-then-dereference contradiction rule and index-past-end lint over the API-reachable packages (K10), no-mutation-on-refusal call-graph reach (K4)",
  "C13": "schema/statement agreement over the constant SQL and entry structs (K8): INSERT/UPDATE/SELECT closure, per-column writer-source = reader-destination, storage classes; field coverage from go/types (K7); not-found path rule (K2) + transaction-variable def-use (K11,K3), decode-target freshness (K11)",
  "C14": "transaction-scope pairing (K3,K11), error discipline at every call site of the create/delete scope (K6), delete traversal coverage from go/types and DELETE statement lint (K7,K8) + batch-per-attempt capture lint on retry literals (K3)",
- "C15": "SQL predicate lint (K8), symbolic expansion of the query builder's CFG paths into templates (K2,K8), stream close/connection ownership pairing (K3), sibling-literal agreement (K7) + retry-context capture lint (K11), constructor copy-order lint (K7)",
+ "C15": "SQL predicate lint (K8), symbolic expansion of the query builder's CFG paths into templates (K2,K8), stream close/connection ownership pairing (K3), sibling-literal agreement (K7) + retry-context capture lint (K11), constructor copy-order lint (K7) + send-has-a-way-out lint on stream producers (K3), one-statement-per-stream path rule (K3)",
  "C16": "pipeline ordering on CFG paths (K3), required-field guard table on every accepting path (K2), child coverage from go/types (K7), def-use of the shared key set (K11), comparison shape (K5), error discipline (K6) + call-order on CFG paths for defaults vs validation, refusal of preset registers (K3,K2)",
- "C17": "reflect.Kind dispatch coverage and callee-assertion contradiction check (K9), scrub-before-return dominance (K3), aliasing lint (K7), call-order and recursion discipline (K4,K6) + assume-and-refute on embedded-struct skipping, exemption-predicate lint (K9)",
+ "C17": "reflect.Kind dispatch coverage and callee-assertion contradiction check (K9), scrub-before-return dominance (K3), aliasing lint (K7), call-order and recursion discipline (K4,K6) + assume-and-refute on embedded-struct skipping, exemption-predicate lint (K9) + assume-and-refute on skipped fields of the registry's type descent (K9)",
  "C18": "field coverage and aliasing lint from go/types (K7), branch-scoped assignment of engine-owned fields and nil-result guards (K2) + append-destination freshness (K7), exemption-predicate lint (K9)",
  "C19": "source-order visit table against the field list from go/types (K7), chain def-use (K11), visitor-result discipline at every yield/walk call (K6)",
  "C20": "prologue guard order on CFG paths (K10), nil-guard dominance (K10), truncate/re-root pairing (K3), type-switch placement table and sibling-case field agreement (K2,K7) + sticky-error return discipline on CFG paths (K6)",
- "C09": "terminal-status guard dominance on CFG paths (K2), fix* prologue guards (K10), exact caller sets (K4) + assume-and-refute iff-rules on skip guards and repair-then-classify (K2)",
+ "C09": "terminal-status guard dominance on CFG paths (K2), fix* prologue guards (K10), exact caller sets (K4) + assume-and-refute iff-rules on skip guards and repair-then-classify (K2) + assume-and-refute: durable group verdicts are not run again at plan level (K2)",
 }
 def text(p):
     return ("Static, all-paths decision of the structural clauses listed for %s in DESIGN.md section 4: every rule instance is evaluated on the type-checked source of /repo's current tree (go/packages + go/types + go/cfg path enumeration), for every path rather than for sampled executions. Each clause is a necessary condition of the property (breaking it breaks observable behaviour for some input/schedule); the behaviour as a whole, which quantifies over runtime values and schedules, is not decided — hence level 'other', not 'proof'." % p)
